@@ -511,6 +511,7 @@ def check(chk):
            text="both states registered")
 
     _more_rules(chk, repo)
+    _time_string_parsers(chk, repo)
 
 
 def _more_rules(chk, repo):
@@ -748,6 +749,15 @@ def _more_rules(chk, repo):
            text="events_to_post[state] append")
 
 
+def _time_string_parsers(chk, repo):
+    from sa.helpers import rescaled_time_strings
+    bad, n = rescaled_time_strings(repo, ("mpf/devices/switch.py", "mpf/core/switch_controller.py", "mpf/plugins/switch_player.py"))
+    for f, x, t in bad:
+        chk.ob("UNIT-1", "a hold time given as a string is parsed by the millisecond parser, never by the seconds parser and rescaled", False, f.where(x),
+               detail="`%s`: a bare number (e.g. `held|250`) would be read as seconds" % t, construct=f.ident, text="rescaled time string " + t)
+    chk.ob("UNIT-1", "hold-time strings of switches are parsed by the parser of their unit (%d parser calls)" % n, not bad and n >= 3, "mpf/devices/switch.py:1", nontrivial=False)
+
+
 def battery():
     from sa.battery import M
     return [
@@ -806,6 +816,7 @@ def battery():
         M("state store deleted", SC, "        obj.state = state\n", "", ("DOM-8", "DOM-7", "DOM-6")),
         M("twin: is_active delegates", SC, "        if ms:\n            return switch.state == 1 and ms <= switch.get_ms_since_last_change()\n\n        return switch.state == 1\n", "        return self.is_state(switch, 1, ms)\n", None),
         M("twin: == platform guard", SC, "                if switch.platform != platform:\n                    continue\n                try:\n                    switch.state = switch_states[number] ^ switch.invert\n                except (IndexError, KeyError):", "                if switch.platform == platform:\n                  try:\n                    switch.state = switch_states[number] ^ switch.invert\n                  except (IndexError, KeyError):", None),
+        M("unit-less hold time of a configured switch event read as seconds", SW, "            ms = Util.string_to_ms(ev_time)", "            ms = int(Util.string_to_secs(ev_time) * 1000)", "UNIT-1"),
     ]
 
 
